@@ -21,7 +21,7 @@ zero); ffi.new(T) without init is all zero even when the allocator hands back di
 memory (the heap is dirtied through libc before each allocation); for a flexible struct
 ffi.sizeof(p[0]) == len(ffi.buffer(p)) >= offsetof(arr) + n*itemsize.
 """
-import ctypes
+import ctypes, os
 from hypothesis import strategies as st
 from vlib.core import HarnessError
 from vlib import agg
@@ -771,3 +771,125 @@ def _nonempty_seq(init):
     if k == 'cdata':
         return _nonempty_seq(init[1])
     return False
+
+
+# ---------------------------------------------------------------- nested flexible structs, all FFI kinds
+#
+# pre(): enumeration of a small finite family that the G-AGG generator does not produce (a struct
+# whose *last member is a struct ending in a flexible array*, nested 1-3 deep -- a GNU C extension
+# that cffi supports explicitly), realised as an in-line FFI, an out-of-line ABI module and a compiled
+# API module (where structs are realised lazily), in both realisation orders (outermost type used
+# first while the inner ones were never touched / innermost first).  Every variant has its own type
+# names, so the order is really the one stated.  One gcc build per run.
+
+_NF_ITEMS = [('signed char', 1), ('short', 2), ('int', 4), ('double', 8)]
+_NF_PREFIX = [('signed char', 1), ('long', 8)]
+
+
+def _nf_variants():
+    out = []
+    k = 0
+    for (it, isz) in _NF_ITEMS:
+        for (pt, psz) in _NF_PREFIX:
+            for depth in (1, 2, 3):
+                for order in ('outer-first', 'inner-first'):
+                    out.append({'k': k, 'item': it, 'isz': isz, 'prefix': pt, 'depth': depth, 'order': order})
+                    k += 1
+    return out
+
+
+def _nf_decls(v):
+    """C/cdef text of one variant: struct nf<k>_0 { prefix p; item arr[]; }; struct nf<k>_1 { prefix q;
+    struct nf<k>_0 in; }; ..."""
+    k = v['k']
+    lines = ['struct nf%d_0 { %s p0; %s arr[]; };' % (k, v['prefix'], v['item'])]
+    for d in range(1, v['depth']):
+        lines.append('struct nf%d_%d { %s p%d; struct nf%d_%d in; };' % (k, d, v['prefix'], d, k, d - 1))
+    return '\n'.join(lines)
+
+
+def _nf_init(v, form, n):
+    """nested initialiser for the outermost struct giving the flexible array n items (or a length)"""
+    arr = list(range(1, n + 1)) if form != 'len' else n
+    if form == 'dict':
+        cur = {'arr': arr}
+        for d in range(1, v['depth']):
+            cur = {'in': cur}
+        return cur
+    cur = [0, arr]
+    for d in range(1, v['depth']):
+        cur = [0, cur]
+    return cur
+
+
+def pre(ctx):
+    import cffi
+    variants = _nf_variants()
+    text = '\n'.join(_nf_decls(v) for v in variants)
+    ffis = {}
+    f_in = cffi.FFI()
+    f_in.cdef(text)
+    ffis['inline'] = f_in
+    f_o = cffi.FFI()
+    f_o.cdef(text)
+    f_o.set_source('_c20_nf_ool', None)
+    path = os.path.join(ctx.tmp, '_c20_nf_ool.py')
+    f_o.emit_python_code(path)
+    ns = {}
+    with open(path) as fp:
+        exec(compile(fp.read(), path, 'exec'), ns)
+    ffis['ool'] = ns['ffi']
+    f_a = cffi.FFI()
+    f_a.cdef(text)
+    name = '_c20_nf_api_%d' % os.getpid()
+    f_a.set_source(name, text)
+    from vlib import cc
+    ffis['api'] = cc.build_api_module(f_a, name, ctx.tmp).ffi
+    forms = ['list', 'dict', 'len']
+    n_eval = 0
+    for mode in ('inline', 'ool', 'api'):
+        ffi = ffis[mode]
+        for v in variants:
+            k, depth = v['k'], v['depth']
+            outer = 'struct nf%d_%d' % (k, depth - 1)
+            form = forms[(k + len(mode)) % 3]
+            n = 3 + k % 4
+            case = {'nested_flex': v, 'mode': mode, 'form': form, 'n': n}
+            if hasattr(ctx, 'journal'):
+                ctx.journal(case)
+            if v['order'] == 'inner-first':
+                for d in range(depth):
+                    ffi.sizeof('struct nf%d_%d' % (k, d))
+            try:
+                p = ffi.new(outer + ' *', _nf_init(v, form, n))
+            except Exception as e:
+                ctx.fail('ffi.new(%r, nested initialiser) raised %s: %s [%s FFI, %s]' % (
+                    outer, type(e).__name__, e, mode, v['order']), case=case)
+            base = ffi.sizeof(outer)
+            # offset of the array from the start of the outermost struct
+            off, tname = 0, outer
+            for d in range(depth - 1, 0, -1):
+                off += ffi.offsetof('struct nf%d_%d' % (k, d), 'in')
+            off += ffi.offsetof('struct nf%d_0' % k, 'arr')
+            need = off + n * v['isz']
+            got_size, got_buf = ffi.sizeof(p[0]), len(ffi.buffer(p))
+            if got_size != got_buf or got_size < need or got_size < base:
+                ctx.fail('nested flexible struct %s with %d items: sizeof(p[0]) = %d, len(buffer(p)) = %d, '
+                         'needed >= %d (base size %d) [%s FFI, %s, %s initialiser]' % (
+                             outer, n, got_size, got_buf, need, base, mode, v['order'], form), case=case)
+            inner = p[0]
+            for d in range(depth - 1):
+                inner = getattr(inner, 'in')
+            items = [inner.arr[i] for i in range(n)]
+            want = [0] * n if form == 'len' else list(range(1, n + 1))
+            if items != want:
+                ctx.fail('nested flexible struct %s: items read back %r, expected %r [%s FFI, %s]' % (
+                    outer, items, want, mode, v['order']), case=case)
+            raw = bytes(ffi.buffer(p))
+            if any(raw[:off]) or (form == 'len' and any(raw)):
+                ctx.fail('nested flexible struct %s: memory outside the initialised items is not zero [%s FFI]'
+                         % (outer, mode), case=case)
+            n_eval += 1
+            ctx.note(['nested-flex', mode, k, form], True,
+                     ['nested-flex:' + mode, 'nested-flex:' + v['order'], 'nested-flex:depth=%d' % depth])
+    ctx.extra['nested_flexible_struct_variants'] = n_eval
